@@ -51,7 +51,9 @@ HLocal ==
       curV == ViewOf(H.cur, scope)
       aftV == ViewOf(Ev.uv, scope)
       tracked == atMgr /\ OriginOf(Ev.call) = uc.origin
-      captured == ok /\ tracked /\ changed /\ InScope(Ev.croot, scope, Ev.cont)
+      \* a multi-operation transaction (call.a = "multi") has no single container: captured iff a tracked type changed
+      inScope == IF Ev.call.a = "multi" THEN ScopeChanged(R, R2, Ev.croot, scope) ELSE InScope(Ev.croot, scope, Ev.cont)
+      captured == ok /\ tracked /\ changed /\ inScope
       foreign == ok /\ atMgr /\ ~tracked /\ ScopeChanged(R, R2, Ev.croot, scope)
       extend == Ev.us = Len(M.ust)
       M1 == IF captured THEN Capture(M, curV, extend, Ev.uclk)
